@@ -12,6 +12,7 @@ import itertools as it
 import math
 import operator
 import re
+import sys
 import threading
 
 import numpy as np
@@ -65,6 +66,7 @@ WILDCARDS = {'?': '.', '*': '.*'}
 
 MAX_COL = 16384
 MAX_ROW = 1048576
+MAX_NUMBER = sys.float_info.max
 
 VALID_R1C1_RANGE_ITEM_COMBOS = {
     (0, 1, 0, 1),
@@ -1289,6 +1291,14 @@ def build_operator_operand_fixup(capture_error_state):
         return coerce_to_number(operand, convert_all=convert_all)
 
     def fixup(left_op, op, right_op):
+        """A result beyond the range of a double is not a number: 1E308*10"""
+        result = excel_operation(left_op, op, right_op)
+        if isinstance(result, (int, float)) and not abs(result) <= MAX_NUMBER:
+            capture_error_state(True, f'Values: {left_op} {op} {right_op}')
+            return NUM_ERROR
+        return result
+
+    def excel_operation(left_op, op, right_op):
         """Fix up python operations to be more excel like in these cases:
 
             Operand error
